@@ -7,18 +7,33 @@ per line.  Which variant of `_rebuild_node`, of `add_node` (rebuild of `_missing
 import SmVerif.Model.SBT
 import SmVerif.Model.Generated
 import SmVerif.Model.Proto
+import SmVerif.Model.Scaled
 
 namespace Sm.DriverSbt
 
 open Sm.Proto Sm.SBT
 
-abbrev St := Option Tree
+/-- the tree and the scaled value of its sketches -/
+abbrev St := Option (Tree × Nat)
 
 def init : St := none
 
 def fixed : Bool := Sm.Gen.sbtRebuildFixed
 def pre : Bool := Sm.Gen.sbtAddRebuildsMissing
 def keep : Bool := Sm.Gen.sbtUnloadKeepsDirty
+def legacyFills : Bool := Sm.Gen.sbtLegacyFillsMin
+def selectEmptyOk : Bool := Sm.Gen.sbtSelectEmptyOk
+
+/-- `MinHash(0, 21, scaled=s)` keeps the hashes up to `_get_max_hash_for_scaled(s)` -/
+def maxHashOf (s : Nat) : Nat := Sm.mhP s
+def keepBelow (s : Nat) (hs : List Nat) : List Nat := hs.filter (fun h => h ≤ maxHashOf s)
+
+/-- what `find` makes of a query of scaled `sQ` on a tree of scaled `sT` -/
+def mkQuery (c thr sT sQ : Nat) (hs : List Nat) : Query :=
+  let q0 := keepBelow sQ hs
+  let mins := if sQ < sT then keepBelow sT q0 else q0
+  { containment := c == 1, thr := thr, mins := mins, maxc := c == 2,
+    cut := if sQ > sT then some (maxHashOf sQ) else none }
 
 def sortDedup (l : List Nat) : List Nat := (l.mergeSort (· ≤ ·)).eraseDups
 
@@ -54,73 +69,95 @@ def probe (t : Tree) (hs : List Nat) : String :=
     | some n => s!"{p}={(n.data t.sizes).matchCount hs}"
     | none => ""))
 
-def fin (st : St) (r : Except Err Tree) : St × String :=
+def fin (st : St) (sT : Nat) (r : Except Err Tree) : St × String :=
   match r with
-  | .ok t => (some t, "ok")
+  | .ok t => (some (t, sT), "ok")
   | .error e => (st, "err " ++ e.name)
+
+def doSearch (st : St) (t : Tree) (sT : Nat) (q : Query) : St × String :=
+  if t.leaves.isEmpty then (st, "err RuntimeError") else
+  match search fixed keep t q with
+  | (t', .ok ls) => (some (t', sT), "ok " ++ joinNats ((ls.map (·.id)).mergeSort (· ≤ ·)))
+  | (t', .error e) => (some (t', sT), "err " ++ e.name)
 
 def step (st : St) (line : String) : St × String :=
   let bad := (st, "bad-op")
   match words line with
   | "#" :: _ => (init, "#")
-  | ["new", d, bf, nt] =>
-    match nats? [d, bf, nt] with
-    | some [d, bf, nt] =>
-      if bf = 0 then bad else
+  | "new" :: d :: bf :: nt :: rest =>
+    match nats? [d, bf, nt], nats? rest with
+    | some [d, bf, nt], some rest =>
+      let sT := match rest with | [s] => s | _ => 1
+      if bf = 0 ∨ sT = 0 ∨ rest.length > 1 then bad else
       let sizes := NG.tableSizes bf nt
-      (some (Tree.new d sizes), s!"ok sizes={joinNats sizes}")
-    | _ => bad
+      (some (Tree.new d sizes, sT), s!"ok sizes={joinNats sizes}")
+    | _, _ => bad
   | "ins" :: id :: hs =>
     match st, nat? id, nats? hs with
-    | some t, some id, some hs =>
-      match addNode fixed pre t ⟨id, sortDedup hs⟩ with
+    | some (t, sT), some id, some hs =>
+      match addNode fixed pre t ⟨id, keepBelow sT (sortDedup hs)⟩ with
       | .ok t' =>
         let pos := match t'.leaves.find? (fun kv => kv.2.id = id) with
           | some kv => toString kv.1
           | none => "-"
-        (some t', s!"ok n={t'.leaves.length} pos={pos}")
+        (some (t', sT), s!"ok n={t'.leaves.length} pos={pos}")
       | .error e => (st, "err " ++ e.name)
     | _, _, _ => bad
   | ["dump"] =>
     match st with
-    | some t => (st, dump t)
+    | some (t, _) => (st, dump t)
     | none => bad
   | "probe" :: hs =>
     match st, nats? hs with
-    | some t, some hs => (st, probe t (sortDedup hs))
+    | some (t, _), some hs => (st, probe t (sortDedup hs))
     | _, _ => bad
   | ["saveload", sp, seed, ver, cache] =>
     match st, nats? [sp, seed, ver, cache] with
-    | some t, some [sp, seed, ver, cache] =>
-      if ver < 3 ∨ ver > 6 then bad else
+    | some (t, sT), some [sp, seed, ver, cache] =>
+      if ver < 1 ∨ ver > 6 then bad else
       let im := save t (fun p => drawAt seed p ≤ sp)
-      fin st (load fixed im ver (if cache = 0 then none else some cache))
+      let cm := if cache = 0 then none else some cache
+      if ver ≤ 2 then
+        if im.leaves.isEmpty then (st, "err ValueError")
+        else if ver = 1 ∧ im.d ≠ 2 then bad
+        else fin st sT (loadLegacy fixed legacyFills im cm)
+      else fin st sT (load fixed im ver cm)
     | _, _ => bad
   | "search" :: c :: thr :: hs =>
-    match st, bool? c, nat? thr, nats? hs with
-    | some t, some c, some thr, some hs =>
-      if t.leaves.isEmpty then (st, "err RuntimeError") else
-      match search fixed keep t ⟨c, thr, sortDedup hs⟩ with
-      | (t', .ok ls) => (some t', "ok " ++ joinNats ((ls.map (·.id)).mergeSort (· ≤ ·)))
-      | (t', .error e) => (some t', "err " ++ e.name)
+    match st, nat? c, nat? thr, nats? hs with
+    | some (t, sT), some c, some thr, some hs =>
+      if c > 1 then bad else doSearch st t sT (mkQuery c thr sT sT (sortDedup hs))
     | _, _, _, _ => bad
+  | "searchs" :: c :: thr :: sQ :: hs =>
+    match st, nats? [c, thr, sQ], nats? hs with
+    | some (t, sT), some [c, thr, sQ], some hs =>
+      if c > 2 ∨ sQ = 0 then bad else doSearch st t sT (mkQuery c thr sT sQ (sortDedup hs))
+    | _, _, _ => bad
+  | ["select", ks, sc, cont] =>
+    match st, nats? [ks, sc], bool? cont with
+    | some (t, sT), some [ks, sc], some cont =>
+      if t.leaves.isEmpty then (st, if selectEmptyOk then "ok" else "err StopIteration")
+      else if ks ≠ 21 then (st, "err ValueError")
+      else if sc > sT ∧ !cont then (st, "err ValueError")
+      else (st, "ok")
+    | _, _, _ => bad
   | ["rebuild", p] =>
     match st, nat? p with
-    | some t, some p => fin st (rebuild fixed t.rebuildFuel t p)
+    | some (t, sT), some p => fin st sT (rebuild fixed t.rebuildFuel t p)
     | _, _ => bad
   | ["rebuildm", k] =>
     match st, nat? k with
-    | some t, some k =>
+    | some (t, sT), some k =>
       let ms := (sortDesc t.missing).reverse
-      if ms.isEmpty then (st, "ok") else fin st (rebuild fixed t.rebuildFuel t (ms.getD (k % ms.length) 0))
+      if ms.isEmpty then (st, "ok") else fin st sT (rebuild fixed t.rebuildFuel t (ms.getD (k % ms.length) 0))
     | _, _ => bad
   | ["fillint"] =>
     match st with
-    | some t => fin st (fillInternal fixed t)
+    | some (t, sT) => fin st sT (fillInternal fixed t)
     | none => bad
   | ["fillmin"] =>
     match st with
-    | some t => fin st (fillMinNBelow fixed t)
+    | some (t, sT) => fin st sT (fillMinNBelow fixed t)
     | none => bad
   | _ => bad
 
